@@ -184,7 +184,15 @@ func propC15(t *rapid.T) {
 	skipEarly := rapid.IntRange(0, skip).Draw(t, "skipAppliedBeforeConversions")
 	// stack traces do not depend on the caller annotation being switched on
 	callerOn := rapid.IntRange(0, 5).Draw(t, "callerAnnotation") != 0
-	base := zap.New(core, zap.WithCaller(callerOn), zap.AddStacktrace(stackSet.enabler()), zap.WithPanicHook(countHook{term}), zap.WithFatalHook(countHook{term}), zap.AddCallerSkip(skipEarly))
+	// a stateful enabler (a stack-trace sampler): its answer alternates from one consultation to the next. Whether a
+	// given entry then gets a trace is its business - but a trace that IS attached must be the complete, correct one.
+	flipflop := rapid.IntRange(0, 7).Draw(t, "statefulStackEnabler") == 0
+	var stackEnab zapcore.LevelEnabler = stackSet.enabler()
+	if flipflop {
+		state := rapid.Bool().Draw(t, "firstAnswer")
+		stackEnab = zap.LevelEnablerFunc(func(zapcore.Level) bool { state = !state; return !state })
+	}
+	base := zap.New(core, zap.WithCaller(callerOn), zap.AddStacktrace(stackEnab), zap.WithPanicHook(countHook{term}), zap.WithFatalHook(countHook{term}), zap.AddCallerSkip(skipEarly))
 	lg := base
 	var sg *zap.SugaredLogger
 	var chain []string
@@ -297,6 +305,9 @@ func propC15(t *rapid.T) {
 		wantStack = map[zapcore.Level]slog.Level{zapcore.DebugLevel: slog.LevelDebug, zapcore.InfoLevel: slog.LevelInfo, zapcore.WarnLevel: slog.LevelWarn, zapcore.ErrorLevel: slog.LevelError}[fr.lvl] >= slogStackAt
 	}
 	wrapperFront := strings.HasPrefix(fr.name, "slog.Wrapper")
+	if flipflop && !useSlog {
+		wantStack = e.Stack != "" // presence is the enabler's business; content is checked below
+	}
 	if (e.Stack != "") != wantStack {
 		t.Fatalf("stack trace present=%v, configured for this level: %v\n%s", e.Stack != "", wantStack, desc)
 	}
